@@ -561,3 +561,64 @@ func RemovalFamilies(maxN, pairsN int, balance bool, trace func(v any)) (cases i
 	}
 	return cases, "", nil
 }
+
+// Churn drives ONE tree through n operations over `vals` distinct values (duplicates allowed
+// when dups is set), checking every call's result against a count model and the whole tree
+// (contents and, when balance is set and values are distinct, AVL balance) every 499 calls.
+func Churn(n, vals int, dups, balance bool, trace func(any)) (fail string, replay any) {
+	t := avl.NewOrdered[int]()
+	count := map[int]int{}
+	size := 0
+	var x uint32 = 2463534242
+	full := func(i int) string {
+		var want []int
+		for v := 0; v < vals; v++ {
+			for k := 0; k < count[v]; k++ {
+				want = append(want, v)
+			}
+		}
+		if m := CheckTree(&t, want, balance && !dups); m != "" {
+			return fmt.Sprintf("after %d operations on one tree: %s", i, m)
+		}
+		return ""
+	}
+	for i := 0; i < n; i++ {
+		x = x*1664525 + 1013904223
+		v, op := int(x>>8)%vals, int(x>>24)%8
+		if trace != nil {
+			trace(map[string]any{"family": "churn", "step": i, "op": op, "value": v})
+		}
+		switch {
+		case op < 4 && (dups || count[v] == 0) && size < 3*vals:
+			t.Add(v)
+			count[v]++
+			size++
+		case op < 7:
+			want := count[v] > 0
+			if got := t.Remove(v); got != want {
+				return fmt.Sprintf("operation %d: Remove(%d) = %v, want %v (size %d)", i, v, got, want, size), map[string]any{"family": "churn", "step": i}
+			}
+			if want {
+				count[v]--
+				size--
+			}
+		default:
+			if i%20000 == 19999 {
+				t.Clear()
+				count, size = map[int]int{}, 0
+			}
+		}
+		if t.Contains(v) != (count[v] > 0) || t.Len() != size {
+			return fmt.Sprintf("operation %d (op %d on %d): Contains = %v want %v, Len = %d want %d", i, op, v, t.Contains(v), count[v] > 0, t.Len(), size), map[string]any{"family": "churn", "step": i}
+		}
+		if i%499 == 0 {
+			if m := full(i + 1); m != "" {
+				return m, map[string]any{"family": "churn", "step": i}
+			}
+		}
+	}
+	if m := full(n); m != "" {
+		return m, map[string]any{"family": "churn", "step": n}
+	}
+	return "", nil
+}
